@@ -431,6 +431,41 @@ def index_call(lines, key):
     return hits[0] if hits else None
 
 
+def mark_age_case(i):
+    """tikv: an Event is at or below a compaction mark whose age, when the next compaction runs its ttl pass, is a good
+    deal below the ttl (650-800 of 1000 ms): it must survive. Wall-clock marks make the run conclusive (the mark was still
+    younger than the ttl AFTER the compaction returned); an inconclusive run is repeated, never judged."""
+    e = EVENT_KEYS[i % len(EVENT_KEYS)]
+    lines = [hist.cfg_line("tikv", eventsttl=1, ttl=TTL_MS), "create %s %s" % (hx(e), hx(b"v1")), "rev", "mark m", "compact 0",
+             "sleep %d" % [650, 720, 800][i % 3], "create %s %s" % (hx(PREFIX + b"/pods/p%d" % i), hx(b"p")), "rev", "compact 0",
+             "since m", "echo after", "get %s 0" % hx(e), "update %s %s %d" % (hx(e), hx(b"v2"), hist.INIT + 1), "rev"]
+    return core.Case("backend", lines, {"engine": "tikv", "markage": True}, compare=lambda op: False)
+
+
+def mark_age_conclusive(case):
+    for line, out in zip(case.lines, case.impl or []):
+        if line == "since m" and len(out.split()) == 3:
+            return int(out.split()[2]) < 950
+    return False
+
+
+def mark_age_oracle(case):
+    if not mark_age_conclusive(case):
+        return None
+    after = False
+    for i, (line, out) in enumerate(zip(case.lines, case.impl)):
+        t, o = line.split(), out.split()
+        if line == "echo after":
+            after = True
+            continue
+        if after and t[0] == "get" and len(o) >= 3 and o[2] == "-":
+            return ("line %d: an Event at a compaction mark younger than the ttl (the mark was %s old after the pass, ttl 1000 ms) "
+                    "was removed by the ttl pass" % (i + 1, [x for l, x in zip(case.lines, case.impl) if l == "since m"][0]), "expired-too-young")
+        if after and t[0] == "update" and o[1] != "ok":
+            return ("line %d: an Event younger than the ttl lost its revision record to the ttl pass: %s" % (i + 1, out), "expired-too-young")
+    return None
+
+
 def straddle_case(i):
     """in-memory engine: a batch that rewrites a key is BEGUN before the deadline of the key's old value and COMMITTED after
     it (the engine holds its mutex from begin to commit, so the old value's timer fires in between and waits): the new
@@ -699,6 +734,7 @@ def check(rep, tier, seed):
     cases += [badger_young_case(i) for i in range(2 if tier == "quick" else 12)]
     cases += [hostile_sibling_case(i) for i in range(2 if tier == "quick" else 9)]
     cases += [straddle_case(i) for i in range(2 if tier == "quick" else 8)]
+    cases += [mark_age_case(i) for i in range(2 if tier == "quick" else 9)]
     # tikv: an Event renewed after the mark, compacted below its newest change; and the failed compare-and-delete of an
     # expired revision record (plain / other error / failed-condition error)
     cases += [renewed_event_case(seed, i, ["", "c", "f"][i % 3]) for i in range(3 if tier == "quick" else 42)]
@@ -710,7 +746,14 @@ def check(rep, tier, seed):
                     break
                 c.run()
             rep.cov["renew_cases_conclusive"] = rep.cov.get("renew_cases_conclusive", 0) + (1 if renew_conclusive(c) else 0)
-    pick = lambda c: (straddle_oracle(c) if c.meta.get("straddle") else hostile_sibling_oracle(c) if c.meta.get("sibling") else
+    for c in cases:
+        if c.meta.get("markage"):
+            for _ in range(3):
+                if mark_age_conclusive(c):
+                    break
+                c.run()
+            rep.cov["mark_age_cases_conclusive"] = rep.cov.get("mark_age_cases_conclusive", 0) + (1 if mark_age_conclusive(c) else 0)
+    pick = lambda c: (mark_age_oracle(c) if c.meta.get("markage") else straddle_oracle(c) if c.meta.get("straddle") else hostile_sibling_oracle(c) if c.meta.get("sibling") else
                       interrupted_oracle(c) if c.meta.get("interrupted") else
                       badger_young_oracle(c) if c.meta.get("byoung") else renewed_oracle(c) if c.meta.get("renewed")
                       else engine_ttl_oracle(c) if c.meta.get("engine_ttl") else concurrent_oracle(c) if c.meta.get("concurrent")
